@@ -143,6 +143,11 @@ class VC:
             return obj._vc_super()
         raise Unsupported(f"super() of {type(obj).__name__}")
 
+    def native_while_test(self, k, value):
+        if isinstance(value, Sym):
+            raise ContractBindError(f"loop {k} of {self.fn_name} has a symbolic condition but no loop contract")
+        return value
+
     # -- loops
     def _st(self, k):
         return C.loop_states.setdefault(k, LoopState())
@@ -271,6 +276,7 @@ _BUILTIN_OVERRIDES = {
     "tuple": sym.vc_tuple,
     "range": sym.vc_range,
     "type": sym.vc_type,
+    "iter": sym.vc_iter,
 }
 
 
